@@ -261,14 +261,36 @@ func genCasePool(c *Ctx, mode string) {
 	}
 	tips := []string{tip}
 	var unconfirmed []*txInfo // built, maybe submitted, not yet put into a block by the harness
+	var known []*txInfo       // every transaction built so far (for re-broadcasts)
 	steps := 6 + rng.Intn(10)
 	for i := 0; i < steps && !nc.dead; i++ {
 		bestName := nc.nm.name(nc.sut.chain.BestBlockHeader().Hash())
 		switch k := rng.Intn(10); {
 		case k < 4: // build transactions on the best block's view and submit them
-			for _, ti := range nc.randomTxs(bestName) {
-				nc.submit(ti)
-				unconfirmed = append(unconfirmed, ti)
+			txs := nc.randomTxs(bestName)
+			switch rng.Intn(4) {
+			case 0:
+				// children before parents (orphans first), the parent maybe never submitted at all
+				// (a block can still confirm it: a parent that never passed through the pool)
+				for j := len(txs) - 1; j >= 0; j-- {
+					if j == 0 && len(txs) > 1 && rng.Intn(2) == 0 {
+						c.Count("parents-never-submitted")
+						continue
+					}
+					nc.submit(txs[j])
+				}
+				c.Count("reverse-order-submits")
+			default:
+				for _, ti := range txs {
+					nc.submit(ti)
+				}
+			}
+			unconfirmed = append(unconfirmed, txs...)
+			known = append(known, txs...)
+			if rng.Intn(3) == 0 && len(known) > 0 {
+				// re-broadcast: a transaction seen before (pooled, orphaned, confirmed or refused)
+				nc.submit(known[rng.Intn(len(known))])
+				c.Count("resubmits")
 			}
 			if rng.Intn(3) == 0 && len(unconfirmed) > 0 { // a conflicting spend of a pooled tx's input
 				victim := unconfirmed[rng.Intn(len(unconfirmed))]
